@@ -39,6 +39,7 @@ import (
 
 var out *gen.Out
 var prop = "C25"
+var samples int
 
 const (
 	finalized = 0  // finalizer.choice.Height of a node without a configured finalizer
@@ -366,6 +367,10 @@ func (e *env) predicates() {
 		return
 	}
 	out.Stat("cases_convergence_checked", 1)
+	if samples < 2 {
+		samples++
+		out.Sample(fmt.Sprintf("heaviest=%d td=%s %s", best, t.TD[best], trunc(e.detail(), 480)))
+	}
 	tip, _ := n.Tip()
 	if !bytes.Equal(tip, t.Hash[best]) {
 		out.Pred(prop+"|connectBestChain|tip-is-not-the-unique-heaviest-branch",
@@ -508,6 +513,17 @@ func genTree(r *gen.Rand, trunk, extra int, maxWork int64) []blk {
 		}
 		bs = append(bs, blk{parent: p, height: bs[p].height + 1, work: 1 + int64(r.Intn(int(maxWork)))})
 	}
+	// now and then one block is much heavier than the rest: short heavy branches beat long light
+	// ones (reorganisations to a LOWER height must clean the height index above the new tip)
+	if r.Chance(1, 3) {
+		k := 1 + r.Intn(2)
+		for j := 0; j < k; j++ {
+			i := trunk + 1 + r.Intn(max(1, len(bs)-trunk-1))
+			if i < len(bs) {
+				bs[i].work = maxWork * int64(2+r.Intn(4))
+			}
+		}
+	}
 	// salts make siblings distinct; transactions: tag = height*4 + variant, so the same tag can
 	// appear on different branches (same height) but never twice on one path.
 	kids := map[int]int{}
@@ -592,32 +608,67 @@ func randomOrder(r *gen.Rand, bs []blk, trunk int) []int {
 	return order
 }
 
+// checkable: the heaviest block (by requested work) is unique and at least `margin` above the
+// finalised height, i.e. the convergence predicate applies to the fully delivered tree.
+func checkable(bs []blk) bool {
+	td := make([]int64, len(bs))
+	best, uniq := 0, true
+	for i := 1; i < len(bs); i++ {
+		td[i] = td[bs[i].parent] + bs[i].work
+		if td[i] > td[best] {
+			best, uniq = i, true
+		} else if td[i] == td[best] {
+			uniq = false
+		}
+	}
+	return uniq && bs[best].height >= finalized+margin
+}
+
+// genChecked draws trees until one is checkable (3 of 4 cases) or gives up after a few tries;
+// the remaining quarter keeps ties / winners below the margin for the model comparison.
+func genChecked(r *gen.Rand, trunk, extra int, maxWork int64) []blk {
+	want := r.Chance(3, 4)
+	var bs []blk
+	for try := 0; try < 12; try++ {
+		bs = genTree(r, trunk, extra, maxWork)
+		if !want || checkable(bs) {
+			break
+		}
+	}
+	return bs
+}
+
 func genCases(seed uint64) []tcase {
 	r := gen.New(seed*0x9e37 + 25)
 	var cs []tcase
 	rec := func() bool { return prop == "C26" || r.Chance(3, 4) }
 	// (a) all orders of small trees above a trunk delivered in order
-	nSmall := gen.Scale(5, 40)
+	nSmall := gen.Scale(8, 40)
 	for i := 0; i < nSmall; i++ {
-		trunk := 9 + r.Intn(4) // 9..12: forks straddle the margin 12
-		k := 3 + r.Intn(2)     // 3..4 upper blocks
+		trunk := 10 + r.Intn(4) // 10..13: forks straddle the margin 12
+		k := 3 + r.Intn(2)      // 3..4 upper blocks
 		if gen.Thorough() && r.Chance(1, 4) {
 			k = 5
 		}
-		bs := genTree(r, trunk, k, 4)
+		bs := genChecked(r, trunk, k, 4)
 		rc := rec()
 		upper := seqInts(trunk+1, trunk+k)
 		for j, p := range perms(upper) {
-			cs = append(cs, tcase{name: fmt.Sprintf("small%d.%d", i, j), rec: rc, blocks: bs,
-				order: append(seqInts(1, trunk), p...), each: true})
+			order := append(seqInts(1, trunk), p...)
+			if r.Chance(1, 4) { // a duplicate somewhere after the trunk
+				id := upper[r.Intn(len(upper))]
+				pos := trunk + r.Intn(len(p)+1)
+				order = append(order[:pos], append([]int{id}, order[pos:]...)...)
+			}
+			cs = append(cs, tcase{name: fmt.Sprintf("small%d.%d", i, j), rec: rc, blocks: bs, order: order, each: true})
 		}
 	}
 	// (b) sampled orders of larger trees
-	nBig := gen.Scale(10, 120)
+	nBig := gen.Scale(16, 120)
 	for i := 0; i < nBig; i++ {
 		trunk := 8 + r.Intn(6)
 		extra := 6 + r.Intn(gen.Scale(14, 24))
-		bs := genTree(r, trunk, extra, int64(1+r.Intn(6)))
+		bs := genChecked(r, trunk, extra, int64(1+r.Intn(6)))
 		rc := rec()
 		orders := 1 + r.Intn(3)
 		for j := 0; j < orders; j++ {
